@@ -159,6 +159,103 @@ def codec_canon(q, line):
     return err_class(line)
 
 
+# ---------------------------------------------------------------------------------------------
+# broker: one `bev` line per broker event; the answer lists what every client received
+
+BROKER_KEEP = {
+    "C02": {"callFunction", "callFunction2", "callFunctionReply", "abortFunctionCall"},
+    "C03": {"createObjectReply", "destroyObjectReply", "createServiceReply", "destroyServiceReply", "queryServiceVersionReply",
+            "queryServiceInfoReply", "subscribeEventReply", "subscribeServiceReply", "callFunctionReply:invalidService"},
+    "C04": {"subscribeEvent", "unsubscribeEvent", "subscribeAllEvents", "unsubscribeAllEvents", "emitEvent", "serviceDestroyed",
+            "subscribeEventReply", "subscribeAllEventsReply", "unsubscribeAllEventsReply", "subscribeServiceReply"},
+    "C05": {"createChannelReply", "closeChannelEndReply", "channelEndClosed", "claimChannelEndReply", "channelEndClaimed",
+            "itemReceived", "addChannelCapacity"},
+    "C09": {"shutdown"},
+    "C10": {"createBusListenerReply", "destroyBusListenerReply", "startBusListenerReply", "stopBusListenerReply", "emitBusEvent",
+            "busListenerCurrentFinished"},
+    "C11": {"syncReply", "createObjectReply", "queryIntrospection", "queryIntrospectionReply"},
+    "C12": {"callFunction", "callFunction2", "abortFunctionCall", "callFunctionReply", "emitEvent", "itemReceived",
+            "queryIntrospectionReply", "queryServiceInfoReply", "createServiceReply", "subscribeAllEventsReply",
+            "unsubscribeAllEventsReply", "subscribeAllEvents", "unsubscribeAllEvents"},
+}
+BROKER_END_EVENTS = ("bev cshut", "bev kshut", "bev drop", "bev ishut", "bev bshut")
+
+
+def _msg_key(m):
+    w = m.split(" ")
+    if w[0] == "emitBusEvent" and len(w) > 2:
+        return w[0] + " " + w[1] + " " + w[2]
+    return w[0]
+
+
+def broker_canon_for(pid):
+    keep = BROKER_KEEP[pid]
+
+    def canon(q, line):
+        if not line.startswith("fin="):
+            return line
+        parts = line.split(" | ")
+        everything = pid == "C09" and q.startswith(BROKER_END_EVENTS)
+        out = [parts[0]] if pid in ("C09", "C11") else []
+        for p in parts[1:]:
+            conn, _, msgs = p.partition(": ")
+            ms = msgs.split(" ; ")
+            # the broker iterates hash maps/sets: runs of messages of one kind have no defined order
+            res, run, key = [], [], None
+            for m in ms:
+                k = _msg_key(m)
+                if k != key:
+                    res.extend(sorted(run))
+                    run, key = [], k
+                run.append(m)
+            res.extend(sorted(run))
+            if not everything:
+                res = [m for m in res if m.split(" ", 1)[0] in keep
+                       or (m.startswith("callFunctionReply ") and m.endswith(" invalidService") and "callFunctionReply:invalidService" in keep)]
+            if res:
+                out.append(conn + ": " + " ; ".join(res))
+        return " | ".join(out)
+
+    return canon
+
+
+def broker_nontrivial_for(pid):
+    c = broker_canon_for(pid)
+
+    def nt(q, a):
+        r = c(q, a)
+        return ":" in r or q == "bstats"
+
+    return nt
+
+
+BROKER_SIZES = {"quick": (150, 4), "thorough": (1500, 14)}
+BROKER_RULE = ("scenarios of 60-400 broker events against the real Broker::run / BrokerHandle::connect / Connection::run futures on a "
+               "deterministic executor: 2-6 connections with negotiated versions 1.14-1.20 (plus rejected handshakes), requests drawn "
+               "state-aware from live/stale/never-issued cookie and serial pools over 4 object/service UUIDs, 3 event ids, channel "
+               "capacities {0,1,3,4,5,6,9,2^32-2,2^32-1}; three profiles (normal, faults: frequent termination in the four ways incl. "
+               "requests still queued when the connection task is dropped, abuse: wrong-direction and version-gated kinds); every "
+               "scenario ends by closing everything and an idle shutdown; one request line = one broker event; compared after projecting "
+               "on the message kinds the property speaks about and sorting runs of same-kind messages (hash iteration order)")
+BROKER_TRUSTED = [
+    "modelled, not verified: HashMap/HashSet as association lists (iteration order is unspecified in Rust; compared after sorting runs); "
+    "Uuid::new_v4 cookies as a counter (freshness of v4 UUIDs is assumed); the bounded mpsc between connections and broker as the "
+    "sequence of events in the order the broker dequeues them; unbounded per-connection send queues whose only failure is "
+    "'connection task gone'; tokio/futures scheduling is replaced by the harness executor",
+    "the random choice of the connection asked for introspection is pinned by registering each type on at most one connection",
+]
+
+
+def broker_prop(pid, module):
+    return {
+        "props_module": module,
+        "level": "proof",
+        "run": generic_run("broker", {"bev", "bstats"} if pid == "C09" else {"bev"}, {pid}, BROKER_SIZES,
+                           canon=broker_canon_for(pid), rule=BROKER_RULE, nontrivial=broker_nontrivial_for(pid)),
+        "trusted": BROKER_TRUSTED,
+    }
+
+
 CODEC_SIZES = {"quick": (2500, 4), "thorough": (12000, 14)}
 CODEC_TRUSTED = [
     "modelled, not verified: HashMap/HashSet as lists in wire order (last duplicate wins, compared after sorting); "
@@ -213,4 +310,12 @@ PROPS = {
         "trusted": ["modelled, not verified: BytesMut as a byte list plus an abstract capacity (reserve(n) guarantees capacity >= len + n; "
                     "split_to(n) reduces it by n); the I/O object is a script of results; wakers are not modelled"],
     },
+    "C02": broker_prop("C02", "Aldrin.Props.C02"),
+    "C03": broker_prop("C03", "Aldrin.Props.C03"),
+    "C04": broker_prop("C04", "Aldrin.Props.C04"),
+    "C05": broker_prop("C05", "Aldrin.Props.C05"),
+    "C09": broker_prop("C09", "Aldrin.Props.C09"),
+    "C10": broker_prop("C10", "Aldrin.Props.C10"),
+    "C11": broker_prop("C11", "Aldrin.Props.C11"),
+    "C12": broker_prop("C12", "Aldrin.Props.C12"),
 }
